@@ -20,6 +20,9 @@ var EnableContentEncoding = false
 
 // CompressingResponseWriter is a http.ResponseWriter that can perform content encoding (gzip and zlib)
 type CompressingResponseWriter struct {
+	// installedByContainer tells that Container.ServeHTTP created this writer (before the Route was known)
+	installedByContainer bool
+
 	writer     http.ResponseWriter
 	compressor io.WriteCloser
 	encoding   string
@@ -134,4 +137,22 @@ func NewCompressingResponseWriter(httpWriter http.ResponseWriter, encoding strin
 		return nil, errors.New("Unknown encoding:" + encoding)
 	}
 	return c, err
+}
+
+// detach is for a response that is not to be encoded after all (the Route has ContentEncodingEnabled(false)).
+// Nothing was written yet ; the unused compressor goes back to the provider, the Content-Encoding header
+// is taken back and the caller continues on the http.ResponseWriter that is returned.
+func (c *CompressingResponseWriter) detach() http.ResponseWriter {
+	if c.isCompressorClosed() {
+		return c.writer
+	}
+	if ENCODING_GZIP == c.encoding {
+		currentCompressorProvider.ReleaseGzipWriter(c.compressor.(*gzip.Writer))
+	}
+	if ENCODING_DEFLATE == c.encoding {
+		currentCompressorProvider.ReleaseZlibWriter(c.compressor.(*zlib.Writer))
+	}
+	c.compressor = nil
+	c.writer.Header().Del(HEADER_ContentEncoding)
+	return c.writer
 }
